@@ -112,25 +112,62 @@ def _run_retry(cases, workers):
     return res
 
 
-def _probe_db_row_per_flow_set() -> bool:
-    """(C29's flag) does _load_historical_outputs create the task_states / task_outputs rows of a proxy whose flows
-    overlap an existing row of the instance without being equal to it?  Probed on the real
-    TaskPool._load_historical_outputs with a stub pool object."""
-    from unittest.mock import MagicMock
-    from cylc.flow.cycling.integer import IntegerPoint
-    from cylc.flow.cycling.loader import INTEGER_CYCLING_TYPE
-    from cylc.flow.id import Tokens
+def _probe_row_insert_mode() -> int:
+    """(C28/C29's flag) call the live TaskPool._load_historical_outputs on stand-in objects with one overlapping DB row
+    of other flows: are fresh rows queued never (0), always (1), or unless the proxy is finished and complete (2)?"""
+    from types import SimpleNamespace
     from cylc.flow.task_pool import TaskPool
-    from cylc.flow.task_proxy import TaskProxy
-    from cylc.flow.taskdef import TaskDef
 
-    tdef = TaskDef('a', {'completion': None, 'outputs': {}}, IntegerPoint('1'), INTEGER_CYCLING_TYPE)
-    tdef.set_required_output('succeeded', True)
-    itask = TaskProxy(Tokens('~u/w'), tdef, IntegerPoint('1'), {1, 2}, transient=True)
-    pool = MagicMock()
-    pool.workflow_db_mgr.pri_dao.select_task_outputs.return_value = {'{"submitted": "submitted"}': {1}}
-    TaskPool._load_historical_outputs(pool, itask)
-    return bool(pool.db_add_new_flow_rows.called)
+    def called(status, complete, outputs_text):
+        calls = []
+
+        class _State:
+            def __init__(self):
+                self.status = status
+                self.outputs = SimpleNamespace(set_trigger_complete=lambda t: None,
+                                               set_message_complete=lambda m: None,
+                                               is_complete=lambda: complete)
+
+            def __call__(self, *statuses):
+                return self.status in statuses
+        itask = SimpleNamespace(tdef=SimpleNamespace(name='a'), point='1', flow_nums={1, 2}, state=_State(),
+                                transient=False, is_complete=lambda: complete, identity='1/a')
+        pool = SimpleNamespace(
+            workflow_db_mgr=SimpleNamespace(pri_dao=SimpleNamespace(
+                select_task_outputs=lambda name, point: {outputs_text: {1}})),
+            db_add_new_flow_rows=lambda it: calls.append(it))
+        TaskPool._load_historical_outputs(pool, itask)
+        return bool(calls)
+    try:
+        unfinished = called('waiting', False, '{}')
+        finished = called('succeeded', True, '{"succeeded": "succeeded"}')
+    except Exception as exc:
+        raise Infra(f'C30 probe of _load_historical_outputs failed: {exc!r}')
+    return 0 if not unfinished else 1 if finished else 2
+
+
+def _probe_unit_flags():
+    """(C28's flags) call the live queue_or_trigger / release_held_active_task on stand-in objects and read the
+    behaviour off the calls they make: (qotSkipsPrepped, releaseQueueIfReady)"""
+    from unittest.mock import MagicMock
+    from cylc.flow.task_pool import TaskPool
+    try:
+        pool, itask = MagicMock(), MagicMock()
+        itask.waiting_on_job_prep = True
+        itask.state.is_queued = False
+        pool.task_queue_mgr.push_task_if_limited.return_value = False
+        pool.count_active_tasks.return_value = ({}, [])
+        TaskPool.queue_or_trigger(pool, itask)
+        qot = not pool.tasks_to_trigger_now.add.called
+        pool, itask = MagicMock(), MagicMock()
+        itask.state_reset.return_value = True
+        itask.state.is_runahead = False
+        itask.is_ready_to_run.return_value = True
+        TaskPool.release_held_active_task(pool, itask)
+        qir = bool(pool.queue_if_ready.called) and not pool.queue_task.called
+    except Exception as exc:
+        raise Infra(f'C30 unit probes failed: {exc!r}')
+    return qot, qir
 
 
 def _case(cid, flow, ops):
@@ -149,8 +186,8 @@ class C30(SchedProp):
     trusted = [
         'the matched ids, and the graph children of each matched id, are Python sets: the orders in which '
         '_remove_matched_tasks walks them are taken from the implementation as hints (the theorems hold for every order)',
-        'behaviour flags of code paths the model shares with C28 / C29 (group trigger: anyOutput, triggerUnpooled; '
-        '_load_historical_outputs: dbRowPerFlowSet) are probed from the live code like the two flags of this property',
+        'behaviour flags of code paths the model shares with C28 / C29 (group trigger: anyOutput, triggerUnpooled, '
+        'qotSkipsPrepped; release_held_active_task: releaseQueueIfReady; _load_historical_outputs: rowInsertMode) are probed from the live code like the two flags of this property',
         'jobs of proxies removed by the command are killed: the generated schedule delivers no further message of theirs',
         'SQLite semantics of UPDATE OR REPLACE on the primary key (name, cycle, flow_nums) and the order in which the rows '
         'of one task come back (flow_nums text, binary collation)',
@@ -202,9 +239,11 @@ class C30(SchedProp):
         b = [t for t in raws[2]['obs'][-1]['xt']['pool'] if (t['p'], t['n']) == (1, 'b')]
         any_output = bool(b) and any(a[3] != 0 for pre in b[0]['pre'] for a in pre if a[:3] == [1, 'a', 'succeeded'])
         unpooled = [1, 'e'] in raws[3]['obs'][-1]['xt']['now']
-        row_per_flow_set = _probe_db_row_per_flow_set()
+        row_mode = _probe_row_insert_mode()
+        qot, qir = _probe_unit_flags()
         self.flags = {'commits': commits, 'always_db': always_db, 'any_output': any_output,
-                      'trigger_unpooled': unpooled, 'db_row_per_flow_set': row_per_flow_set}
+                      'trigger_unpooled': unpooled, 'row_insert_mode': row_mode, 'qot_skips_prepped': qot,
+                      'release_queue_if_ready': qir}
         lb = {True: 'true', False: 'false'}
         return {'RmFlags.lean': (
             '/- GENERATED by harness/props/c30.py translate() from the live source. Do not edit. -/\n'
@@ -219,9 +258,13 @@ class C30(SchedProp):
             f'def anyOutput : Bool := {lb[any_output]}\n'
             '/-- (C28) `cylc trigger` triggers the object `_set_prereqs_tdef` hands back even when it is not the pooled proxy -/\n'
             f'def triggerUnpooled : Bool := {lb[unpooled]}\n'
-            '/-- (C29) `_load_historical_outputs` inserts the rows of a proxy whose flows overlap an existing row of the\n'
-            'instance without being equal to it -/\n'
-            f'def dbRowPerFlowSet : Bool := {lb[row_per_flow_set]}\n'
+            '/-- (C28/C29) `_load_historical_outputs`, rows overlap the flows of the proxy but none is of exactly its flows:\n'
+            'fresh rows are queued 0 never, 1 always, 2 unless the proxy is a finished and complete instance -/\n'
+            f'def rowInsertMode : Nat := {row_mode}\n'
+            '/-- (C28) `queue_or_trigger` returns early for a proxy already waiting on job preparation -/\n'
+            f'def qotSkipsPrepped : Bool := {lb[qot]}\n'
+            '/-- (C28) `release_held_active_task` queues through `queue_if_ready` (not a manually triggered proxy) -/\n'
+            f'def releaseQueueIfReady : Bool := {lb[qir]}\n'
             'end CylcModel.RmFlags\n')}
 
     def corpus(self):
@@ -318,7 +361,9 @@ C30.theorems = ['CylcModel.C30.' + t for t in (
     'unset_exactly_natural', 'forced_kept', 'other_tasks_kept', 'natural_unset', 'changed_iff',
     'match_flows_spec', 'flows_removed', 'leaves_pool_iff_none_remain',
     'child_untouched', 'child_prereqs_unset', 'child_kept', 'child_unqueued', 'child_removed', 'child_leaves_iff',
-    'history_erased', 'other_history_kept', 'history_forgotten', 'runs_again', 'erase_then_respawn',
+    'child_history_erased_in_its_own_flows',
+    'history_erased', 'other_history_kept', 'other_flows_history_kept', 'history_forgotten', 'runs_again',
+    'erase_then_respawn',
     'others_untouched', 'kill_leaves_pool', 'removal_frame',
     'erased_at_once_partial', 'erased_at_once_counterexample', 'erased_at_once_live', 'repaired_is_quiet',
     'elsewhere_partial', 'elsewhere_counterexample', 'elsewhere_live',
@@ -338,7 +383,9 @@ C30.statement_note = (
     '(child_untouched, child_prereqs_unset, child_kept, child_unqueued, child_removed, child_leaves_iff); (4) '
     'remove_task_from_flows followed by a commit, when nothing else is queued for the two tables: no task_states / task_outputs '
     'row of the task carries a removed flow (no flow at all without --flow), rows of other tasks are exactly what they were '
-    '(history_erased, other_history_kept); then _get_task_history finds nothing and spawn_task hands out a new instance '
+    '(history_erased, other_history_kept), a flow set of the same task that contains no removed flow is still the flow set '
+    'of one of its rows (other_flows_history_kept), and a child that stands down is erased with its own matched flows, not '
+    'the flows named by the command (child_history_erased_in_its_own_flows); then _get_task_history finds nothing and spawn_task hands out a new instance '
     '(waiting, no outputs, the requested flows) for any instance of the graph that is not a pre-start instance of flow 1 '
     '(history_forgotten, runs_again, erase_then_respawn); (5) frame: after the whole removal loop of _remove_matched_tasks and '
     'the kill of the removed jobs every pooled proxy outside the closure of the matched ids (ids, their graph children, the '
